@@ -38,6 +38,18 @@ def _c18_frame(repo, reg, tier):
     return frame_obligations_iteration(repo, "C18/"), []
 
 
+def _c13_frame(repo, reg, tier):
+    """'The columns an expression declares as required are exactly those it needs' also fails when evaluating one
+    expression's columns_required changes what another expression declares: the (cached) sets handed out must never be
+    mutated.  The C09 frame obligations of the column-expression modules are part of this check."""
+    from contracts.persist import frame_obligations
+
+    frame = [o for o in frame_obligations(repo) if o.func.startswith("_columns.")]
+    for o in frame:
+        o.label = o.label.replace("C09/", "C13/")
+    return frame, []
+
+
 def _c01_extra(repo, reg, tier):
     from contracts.iteration import bounded_extra
 
@@ -56,7 +68,7 @@ PROPS: dict[str, dict] = {
         "extra": [_c01_extra],
         "assumptions": ["SQL denotation of the SQLAlchemy builder calls (contracts/sqlexpr.py): integer arithmetic mathematical, two-valued comparisons on NULL-free rows, AND/OR/NOT, BETWEEN inclusive, IN (...), % truncating toward zero; the database evaluates that SQL as stated, no overflow",
                         "GenericConcreteEngine.get_function(name) is the operator module's function for the portable names",
-                        "law library spec/laws.py incl. the integer laws mod-congruence / floor-division / emod-small-negative (status per law in coverage.law_library)",
+                        "law library spec/laws.py incl. the integer laws mod-congruence / desc-range (status per law in coverage.law_library)",
                         "iteration side (contracts/itconv.py): a stored callable applied to a row is modelled as an integer-valued total function of the row (bools as 0/1, literal value objects through lit_int); rows handed to a callable have the columns the expression mentions"],
         "explanation": "sql.Engine.convert_column_expression / convert_predicate: every match arm denotes the expression's value under the stated SQL semantics; iteration.Engine.convert_column_expression / convert_column_container / convert_predicate: the returned closure (the real lambda, executed on the Skolem witness row) computes the expression's / container's / predicate's value -- for all expression trees over the portable operator set and all rows",
     },
@@ -68,7 +80,6 @@ PROPS: dict[str, dict] = {
         "extra": [_c01_extra, _rowiter_scan],
         "assumptions": ["leaf payloads are re-iterable and hold the leaf's rows; iteration-engine leaves always carry a payload; a user-built RowMapping holds rows that are unique on its key (documented requirement)",
                         "model of Python values in the iteration engine (DESIGN 2.2): a row dict is a key set plus a total map that is 0 outside it; generators are the loops they abbreviate (ghost output sequence); a dict comprehension keyed on columns is the insertion-ordered fold abstracted by its values; itertools.groupby yields the maximal runs; list.sort is stable also with reverse=True; stored callables are pure, total, integer-valued",
-                        "law sortc-group (one stable sort by the tuple of a same-direction group's values == the passes of the group's terms one by one) is bounded-checked natively, not Lean-proved",
                         "law library spec/laws.py (status per law in coverage.law_library)",
                         "independence of merging/elision/reordering at construction time is C05 (UnaryOperation._finish_apply) and C03 (backtracking)"],
         "explanation": "iteration.Engine.execute proved arm by arm, including the Sort arm (loop invariant over the direction groups): content(result) == rows(relation); the RowIterable classes (constructors, __iter__ generators, conversion methods) and the converted callables are proved from their bodies (contracts/rowiter.py, itconv.py, sortarm.py)",
@@ -80,6 +91,7 @@ PROPS: dict[str, dict] = {
         "explanation": "hash/eq obligations on every dataclass reachable from Relation; frame obligation for every mutating statement of the library; no ambient-state imports",
     },
     "C10": {
+        "closure_depth": 1,  # already the longest-running checks; deeper levels are covered by the checks owning those functions
         "modules": ["processor"],
         "extra": [_c10_extra],
         "assumptions": ["the user's Processor.transfer/materialize hooks return a payload holding the rows of their source (assumed contract; their preconditions are proved at the call sites)",
@@ -94,10 +106,11 @@ PROPS: dict[str, dict] = {
         "extra": [_c18_scan, _c18_extra, _c18_frame, _rowiter_scan],
         "assumptions": ["constructing a generator-backed RowIterable and RowIterable.sliced start no iteration (AST effect scan + the proved constructor contracts: they only store their arguments); to_mapping, materialized and the Sort arm's list() are the only iteration starts inside execute",
                         "the ghost counter RowIterable.iterations is specification state: the real classes keep no such counter",
-                        "per-iteration clauses (single pass per full iteration, eager operations consume their input once at execute time, repeatable results) concern generator bodies outside the executor's subset: bounded stand-in replay/bounded_lazy.py only"],
+                        "per-iteration clauses: proved per class through a ghost event log of iteration starts (contracts/rowiter.py); the step from the per-class clauses to whole trees is an induction over the object graph (meta-argument); replay/bounded_lazy.py is a bounded cross-check"],
         "explanation": "Engine.execute proved arm by arm: on a tree of lazy operations the iteration counters and payload cells are left exactly as found",
     },
     "C17": {
+        "closure_depth": 1,  # already the longest-running checks; deeper levels are covered by the checks owning those functions
         "modules": ["sqlsel"],
         "assumptions": ["every Select object is built by Select.apply_skip (its coherence invariant is proved there and assumed on read; hand-built Select objects are outside the property)",
                         "law library spec/laws.py (status per law in coverage.law_library; dedup-slice-dedup and proj-chain are bounded-checked only unless listed as Lean-proved)",
@@ -106,6 +119,7 @@ PROPS: dict[str, dict] = {
         "explanation": "Select coherence as a class invariant proved at its only construction site (Select.apply_skip); sql.Engine.conform, _append_unary_to_select (all arms), _append_binary_to_select, Select.reapply/strip and the engine entry points proved to return coherent Selects with the rows of the request",
     },
     "C07": {
+        "closure_depth": 1,  # already the longest-running checks; deeper levels are covered by the checks owning those functions
         "modules": ["processor"],
         "assumptions": ["the user's Processor.transfer/materialize hooks return a payload holding the rows of their source (assumed contract; their preconditions are proved at the call sites)",
                         "Engine.get_join_identity_payload/get_doomed_payload return payloads (true of the sql and iteration engines; the base-class default None is out of scope)",
@@ -116,6 +130,7 @@ PROPS: dict[str, dict] = {
         "explanation": "Processor._process_recursive proved path by path (77 paths, recursion by contract, payload heap as ghost state): same rows/columns/engine, result evaluable by its engine alone, hooks only on self-contained non-trivial sources, payloads never replaced, transfers never gain payloads",
     },
     "C06": {
+        "closure_depth": 1,  # already the longest-running checks; deeper levels are covered by the checks owning those functions
         "modules": ["processor"],
         # "... so the short-cuts keyed on them never change a result": the consumers named by the property
         # (execute's short-circuits, Join elision in _begin_apply/_finish_apply, Processor chain pruning)
@@ -128,6 +143,7 @@ PROPS: dict[str, dict] = {
     },
     "C13": {
         "modules": ["predicates"],
+        "extra": [_c13_frame],
         "assumptions": ["expression semantics of DESIGN 3.1 (integer rows, two-valued logic)"],
         "explanation": "as_trivial / flatten_logical_and / logical_and / columns_required against the spec functions ev, fv",
     },
@@ -168,8 +184,8 @@ PROPS: dict[str, dict] = {
         "explanation": "tree invariants as class invariants proved at every construction site (engine consistency, resolved joins, no placeholder operations, supported expressions, transfers change engine) + no-op clauses",
     },
     "C15": {
-        "modules": ["c20"],
-        "assumptions": ["implementations in lsst.daf.relation.sql are assumed to satisfy the generic engine contracts (subject of C02/C17)"],
+        "modules": ["c20", "sqlsel"],  # sql.Engine.conform is verified here too (tagged C15): locked relations are wrapped, never re-created
+        "assumptions": ["sql.Engine.transfer / materialize / append_* are assumed to satisfy the generic engine contracts here (subject of C17); sql.Engine.conform is verified in this check"],
         "explanation": "Transfer.simplify / Materialization.simplify / Engine.transfer / Engine.materialize / MarkerRelation.reapply / backtrack_unary locked clause",
     },
     "C20": {
@@ -205,8 +221,8 @@ PROPS["C19"].update(
                "Uniqueness over every history and interleaving follows because no postcondition depends on the shared counter.",
     level_note=_COMMON_NOTE + "Assumed: uuid4 freshness (an assumed contract on an external function); schedules are not explored, the argument is independence from shared state.",
 )
-_LAWS = ("Law library spec/laws.py (algebra of filter/calc/proj/dedup/sort/slice/chain/join on row sequences, plus the row-at-a-time laws for generator bodies): 81 of 82 laws are machine-checked in Lean 4 over a concrete model "
-         "(lean/RelAlg, compiled by MANIFEST.setup_cmd; statements transcribed by hand from the law table) and bounded-checked natively (spec/lawcheck.py); "
+_LAWS = ("Law library spec/laws.py (algebra of filter/calc/proj/dedup/sort/slice/chain/join on row sequences, plus the row-at-a-time laws for generator bodies, the Sort-arm laws and two integer lemmas): all 83 laws are machine-checked in Lean 4 over a concrete model "
+         "(lean/RelAlg, compiled by MANIFEST.setup_cmd; the Lean statements are generated from the same law table -- spec/leanprint.py -> lean/RelAlg/Generated.lean -- and each must be closed by the hand-written theorem) and bounded-checked natively (spec/lawcheck.py); "
          "the evidence file lists any law whose Lean theorem did not compile in this installation as assumed; ")
 PROPS["C04"].update(
     level_text="commute of all 9 operation classes is proved against the C04 contract for every one of the 6 node-capable existing operation classes (54 cells, each its own obligation), "
@@ -252,13 +268,13 @@ PROPS["C12"].update(
     level_text="sql.Engine.convert_column_expression and convert_predicate are proved arm by arm (10 cells, recursion by contract, comprehensions over operand tuples): the built SQL term's value equals the expression's/predicate's value on every NULL-free integer row, "
                "relative to the stated denotation of the SQLAlchemy builder calls (BETWEEN inclusive, truncating %, ...); the range-literal arm is proved for all integer start/stop/step including descending ranges and negative starts (after the F12 repair). "
                "The iteration engine's convert_column_expression / convert_column_container / convert_predicate are proved as well (9+2+5 arms): the returned closure is executed symbolically on the witness row of 'the callable does not denote the expression' and shown to compute the expression's value (recursion by contract, comprehensions over operand tuples, all()/any()/in/not).",
-    level_note=_COMMON_NOTE + "Assumed: the SQL denotation model in contracts/sqlexpr.py and that the database implements it (no overflow); get_function returns operator.<name> for the portable names; three integer lemmas (spec/laws.py); stored callables are pure integer-valued functions of the row. One SQL cell (descending range with modulo) is covered by a bounded SQLite stand-in.",
+    level_note=_COMMON_NOTE + "Assumed: the SQL denotation model in contracts/sqlexpr.py and that the database implements it (no overflow); get_function returns operator.<name> for the portable names; three integer lemmas (spec/laws.py); stored callables are pure integer-valued functions of the row. The descending-range cell of the SQL side, formerly a bounded SQLite stand-in, is discharged with the Lean-proved lemma desc-range (the SQLite enumeration remains as the stage-2 search for a replayable failing range).",
 )
 PROPS["C01"].update(
     level_text="iteration.Engine.execute is proved arm by arm (13 cells): the returned iterable yields exactly the rows of direct evaluation of the tree (values, multiplicity, order), attached payloads are honoured, the three short-cuts (empty, join identity, payload) never change the result. "
                "Everything execute builds on is proved from the current source as well: every RowIterable constructor stores its arguments; every __iter__ (generator expressions and the generator function of SliceRowIterable, executed as loops with a ghost output sequence and loop invariants) yields the class's rows; to_mapping / to_sequence / materialized / sliced meet their contracts in every implementation; the attributes are bound nowhere but in __init__ (AST obligation); "
                "the converted callables denote their expressions (contracts/itconv.py); the Sort arm (groupby on direction + one stable list.sort per group, from the last group to the first) is proved by a loop invariant to be the stable multi-key sort. Known finding F8 (key-only deduplication) is re-proved with its witness class excluded.",
-    level_note=_COMMON_NOTE + _LAWS + "Not Lean-proved (bounded-checked natively): law sortc-group (LSD radix-sort lemma for one direction group). Assumed: the model of Python rows / generators / dict comprehensions / groupby / list.sort stated in DESIGN 2.2; stored callables are pure and total. A bounded native cross-check of that model against CPython runs with the check (replay/bounded_rowiter.py). Expressions are over the portable operator set (the property's quantifier). Independence of construction-time merging/reordering is C05/C03 (their contracts are verified here through `depends` and the depth-1 dependency closure).",
+    level_note=_COMMON_NOTE + _LAWS + "Law sortc-group (LSD radix-sort lemma for one direction group) is Lean-proved like the rest. Assumed: the model of Python rows / generators / dict comprehensions / groupby / list.sort stated in DESIGN 2.2; stored callables are pure and total. A bounded native cross-check of that model against CPython runs with the check (replay/bounded_rowiter.py). Expressions are over the portable operator set (the property's quantifier). Independence of construction-time merging/reordering is C05/C03 (their contracts are verified here through `depends` and the depth-1 dependency closure).",
 )
 PROPS["C10"].update(
     level_text="MarkerRelation.attach_payload (write-once, frame: only this marker's cell, rejected attach changes nothing) and BaseRelation.attach_payload (always TypeError) are proved; an AST scan proves the only payload write in the library is that statement; "
@@ -270,8 +286,10 @@ PROPS["C10"].update(
 PROPS["C18"].update(
     level_text="iteration.Engine.execute is proved, arm by arm and by recursion, to start no iteration at all (ghost counters unchanged, no payload attached) on every tree made only of calculation, projection, selection, slice and chain over leaves, "
                "payload-carrying or statically trivial subtrees and same-engine markers/transfers -- for all such trees. Identical rows on repeated iteration: what an iterable yields is proved to be a function of its (immutable) attributes (contracts/rowiter.py), the Sort arm is proved to sort only a list it built itself, and the frame obligations of the iteration modules show nothing writes to an object it did not build. "
-               "The counting clauses (one pass over each leaf per full iteration; eager operations consume their input once, at execute time) are decided by the AST effect scan and bounded-checked natively with counting leaf payloads (replay/bounded_lazy.py), labelled bounded, not proved.",
-    level_note=_COMMON_NOTE + "Assumed: to_mapping, materialized and list() may start any number of iterations (ghost counter havocked). The number of iterations a generator body starts is not modelled by the executor: it is decided syntactically (effect scan) and bounded-checked.",
+               "The counting clauses are proved per class: while a constructor, __iter__, to_mapping, to_sequence or sliced body is executed symbolically, every start of an iteration of a row-iterable object is logged (ghost event log), "
+               "and each class is proved to start exactly one iteration of each of its sources per full iteration, outside any loop (constructors and sliced: none; to_mapping / to_sequence: at most one, of the receiver) -- by induction over the object graph each leaf occurrence is iterated at most once per pass, "
+               "and eager results hold their rows in a list / dict value, not a reference to their input. An independent AST effect scan and a bounded native harness with counting leaf payloads (replay/bounded_lazy.py, labelled bounded) cross-check this.",
+    level_note=_COMMON_NOTE + "Assumed: inside execute, to_mapping, materialized and list() may start any number of iterations (ghost counter havocked there). The induction over the object graph (from the per-class clauses to 'each leaf occurrence at most once') is a meta-argument, not machine-checked.",
 )
 PROPS["C17"].update(
     level_text="Select coherence is a class invariant (rows(select.target) == slice(dedup?(proj?(sort(rows(skip_to))))) with the recorded operations; peeling the recorded slice/deduplication/projection/sort nodes off select.target arrives at skip_to; is_compound iff skip_to is a Chain node; "
